@@ -286,6 +286,11 @@ class Thm:
         A[s] |- B[s]  where s is substitution on terms
 
         """
+        # Substituted terms are inserted under binders as they are: an open term
+        # (with loose bound variables) would be captured.
+        for t in list(inst.values()) + list(inst.var_inst.values()):
+            if t.is_open():
+                raise InvalidDerivationException("substitution: instantiation contains an open term")
         try:
             # Term.subst extends inst.tyinst by matching the types of the schematic variables
             # of the term it is applied to.  The whole sequent must be instantiated by ONE type
